@@ -570,13 +570,22 @@ fn derives(m: &Model, ctx: &mut Ctx) {
             let last = name.rsplit("::").next().unwrap_or(name).trim();
             if last == "REQUIRED_DERIVES" { Some(Val::List(base2.iter().map(|s| Val::Str(s.clone())).collect())) } else { cr0(name) }
         };
-        let hook = |_: &Evaluator, name: &str, a: &[Val]| -> Option<Result<Val, String>> {
+        // the annotation parser is the crate's own, interpreted character by character (SRC-C)
+        let parser = m.fns.iter().find(|g| g.name == "parse_rust_derive_annotation" && g.krate == "rasn-compiler");
+        let Some(parser) = parser else {
+            ctx.fail_closed("C19.derives", "anchor not found: parse_rust_derive_annotation");
+            return;
+        };
+        ctx.func(&parser.key);
+        let ptail = match parser.block.stmts.last() { Some(syn::Stmt::Expr(e, None)) => e.clone(), _ => { ctx.fail_closed("C19.derives", "parse_rust_derive_annotation does not end in a parser expression"); return; } };
+        let hook = |ev: &Evaluator, name: &str, a: &[Val]| -> Option<Result<Val, String>> {
             match name {
                 "parse_rust_derive_annotation" => match a.first() {
-                    Some(Val::Str(t)) => Some(Ok(match t.strip_prefix("#[derive(").and_then(|r| r.strip_suffix(")]")) {
-                        Some(inner) => Val::Ctor("Ok".into(), vec![Val::Tuple(vec![Val::Str(String::new()), Val::List(inner.split(',').map(|d| Val::Str(d.trim().to_string())).collect())])], Map::new()),
-                        None => Val::Ctor("Err".into(), vec![Val::Sym("not a derive".into())], Map::new()),
-                    })),
+                    Some(Val::Str(t)) => Some(match crate::nomchars::run(ev, &ptail, t, 0, 0) {
+                        Ok(Some((pos, out))) => Ok(Val::Ctor("Ok".into(), vec![Val::Tuple(vec![Val::Str(t[pos..].to_string()), out.to_val()])], Map::new())),
+                        Ok(None) => Ok(Val::Ctor("Err".into(), vec![Val::Sym("not a derive".into())], Map::new())),
+                        Err(e) => Err(format!("parse_rust_derive_annotation: {}", e)),
+                    }),
                     _ => None,
                 },
                 _ => None,
@@ -584,7 +593,22 @@ fn derives(m: &Model, ctx: &mut Ctx) {
         };
         let ev = Evaluator { consts: &consts, call_hook: &hook, inline: None };
         let params: Vec<String> = f.sig.inputs.iter().filter_map(|a| match a { syn::FnArg::Typed(t) => Some(tok(&t.pat).trim_start_matches("mut ").to_string()), _ => None }).collect();
-        for annots in [vec![], vec!["#[derive(Copy)]"], vec!["#[derive(Debug, PartialOrd, Clone)]", "#[repr(C)]"], vec!["#[repr(C)]", "#[derive(Ord)]", "#[derive(Ord, Default)]"]] {
+        // what a derive attribute is (the oracle, independent of the crate's parser): `#[derive(` paths separated by commas, a
+        // trailing comma allowed, `)]`, blanks anywhere between the tokens — and nothing else in the string
+        fn derive_items(a: &str) -> Option<Vec<String>> {
+            let t: String = a.chars().filter(|c| !c.is_whitespace()).collect();
+            let inner = t.strip_prefix("#[derive(")?.strip_suffix(")]")?;
+            if inner.contains(['(', ')', '[', ']', '#']) {
+                return None;
+            }
+            let items: Vec<String> = inner.split(',').filter(|x| !x.is_empty()).map(|x| x.to_string()).collect();
+            if items.is_empty() || !items.iter().all(|i| i.split("::").all(|seg| !seg.is_empty() && seg.chars().all(|c| c.is_alphanumeric() || c == '_'))) {
+                return None;
+            }
+            Some(items)
+        }
+        for annots in [vec![], vec!["#[derive(Copy)]"], vec!["#[derive(Debug, PartialOrd, Clone)]", "#[repr(C)]"], vec!["#[repr(C)]", "#[derive(Ord)]", "#[derive(Ord, Default)]"],
+            vec!["#[derive(Debug, serde::Serialize)]"], vec!["#[derive(Clone,)]"], vec![" # [ derive ( PartialOrd , my_crate::My_Trait ) ] "], vec!["#[derive(Serialize)] #[serde(rename_all = \"camelCase\")]"], vec!["#[derive(Hash)]", "#[serde(tag = \"derive(Eq)\")]"]] {
             let key = format!("merge:{:?}", annots);
             ctx.oblige("C19.derives", &key, true);
             let mut cfg = Map::new();
@@ -596,8 +620,8 @@ fn derives(m: &Model, ctx: &mut Ctx) {
             let mut want = base.clone();
             let mut kept: Vec<String> = vec![];
             for a in &annots {
-                match a.strip_prefix("#[derive(").and_then(|r| r.strip_suffix(")]")) {
-                    Some(inner) => for d in inner.split(',').map(|d| d.trim().to_string()) { if !want.contains(&d) { want.push(d); } },
+                match derive_items(a) {
+                    Some(items) => for d in items { if !want.contains(&d) { want.push(d); } },
                     None => kept.push(a.to_string()),
                 }
             }
@@ -607,7 +631,7 @@ fn derives(m: &Model, ctx: &mut Ctx) {
                     let got = strs(fl.get("required_derives"));
                     let got_kept = match fl.get("config") { Some(Val::Ctor(_, _, c)) => strs(c.get("type_annotations")), _ => vec!["?".into()] };
                     if got != want {
-                        ctx.violate("C19.derives", "merge", &f.file, f.line, &format!("Rasn::new with type_annotations {:?} derives {:?}; expected the required derives followed by each user derive once: {:?}", annots, got, want));
+                        ctx.violate("C19.derives", "merge", &f.file, f.line, &format!("Rasn::new with type_annotations {:?} derives {:?}; expected the required derives followed by each user derive once: {:?} — a derive attribute that is not recognised as one is emitted next to the built-in #[derive(..)] (a trait derived twice is E0119 in the bindings), one recognised in part loses its remainder", annots, got, want));
                     }
                     if got_kept != kept {
                         ctx.violate("C19.derives", "non-derive-kept", &f.file, f.line, &format!("Rasn::new with type_annotations {:?} keeps the annotations {:?}; expected {:?} (what is not a derive stays as it is)", annots, got_kept, kept));
